@@ -1,5 +1,7 @@
 import Enc.Model.Json.Token
 import Enc.Spec.Json.Tokens
+import Enc.Lemmas.TokSpec
+import Enc.Lemmas.TokConcat
 /-!
 # C17 — json.Tokenizer enumerates exactly the tokens of the document
 Property theorems only.
@@ -14,5 +16,31 @@ theorem err_is_sticky (s : St) (h : s.err = true) : next s = (none, s) := by
 /-- a Reset tokenizer behaves like a new one: whatever the history `old` and whatever stale content the pooled stack
 carries, the state after `Reset(b)` is exactly `NewTokenizer(b)`'s -/
 theorem reset_is_new (old : St) (garbage : List (Scope × Nat)) (b : Bytes) : reset old garbage b = newSt b := rfl
+
+/-- **Main theorem.** For every valid JSON document (`tokensOf b = some ts`, the grammar-directed specification that
+DEFINES depth = number of enclosing containers, index = position within the parent, and key/value role), iterating
+the tokenizer yields, in order, exactly the specification's tokens — delimiter, value span, Depth, Index, IsKey — and
+ends without error. -/
+theorem tokens_eq_spec (b : Bytes) (ts : List Spec.Json.STok) (h : Spec.Json.tokensOf b = some ts) :
+    (tokens b).2 = false ∧
+    (tokens b).1.map (fun t => (t.delim, t.value, t.depth, t.index, t.isKey)) =
+      ts.map (fun t => (t.delim, t.value, (t.depth : Int), (t.index : Int), t.isKey)) :=
+  Lemmas.TokSpec.tokens_spec b ts h
+
+/-- the concatenation of the token Values equals the compacted document (all white space outside strings removed;
+`compact` is defined without reference to tokens) -/
+theorem concat_values_eq_compact (b : Bytes) (ts : List Spec.Json.STok) (h : Spec.Json.tokensOf b = some ts) :
+    ((tokens b).1.map (·.value)).flatten = Lemmas.TokConcat.compact b :=
+  Lemmas.TokConcat.concat_values b ts h
+
+/-- for EVERY byte string the tokenizer terminates: each successful `Next` strictly shortens the remaining input, so the
+iteration never exhausts its fuel (`len + 2` calls suffice, whatever extra fuel is given) -/
+theorem next_progress (s : St) (t : Tok) (s' : St) (h : next s = (some t, s')) : s'.json.length < s.json.length :=
+  Lemmas.TokSpec.next_progress s t s' h
+theorem tokens_terminate (b : Bytes) (k : Nat) : run (b.length + 2 + k) (newSt b) [] = tokens b :=
+  Lemmas.TokSpec.tokens_fuel b k
+
+/-- non-vacuity: the hypothesis of the main theorem is met by a document with an empty object inside an array -/
+example : (Spec.Json.tokensOf [0x5b, 0x7b, 0x7d, 0x2c, 0x22, 0x61, 0x22, 0x5d]).isSome = true := by decide +kernel
 
 end Enc.Props.C17
